@@ -1,6 +1,7 @@
 import IndicatifModel.Model.Position
 import IndicatifModel.Generated.Atomics
 import IndicatifModel.Proofs.GenBridge
+import IndicatifModel.Model.BarGeo
 /-!
 # C07 — Position and length bookkeeping, including concurrent increments
 -/
@@ -165,6 +166,34 @@ theorem C07_source_ops (a : Generated.AtomicPosition) (s : St) (d now : Nat) (hd
   have hl := GenBridge.length_ops s now d
   exact ⟨GenBridge.atomicPosition_inc a d, GenBridge.atomicPosition_dec a d hd, GenBridge.atomicPosition_set a d,
     ⟨_, GenBridge.atomicPosition_reset a now hnow, rfl⟩, hl.1, hl.2.1, hl.2.2.1, hl.2.2.2⟩
+
+/-- **the completed fraction by cases** (`ProgressState::fraction`, transcribed in `Model/BarGeo` over any arithmetic):
+0 for an unknown length, 1 for a zero length, 0 at position 0, and otherwise the quotient clamped to `[0, 1]` — one of
+`0`, `1` or the quotient itself, the latter only when it is neither below 0 nor above 1. That the value lies in `[0, 1]` for
+every position and length over IEEE arithmetic is `BarGeo.fraction_range` (Props/C13); the rendered `{percent}` is compared
+with it by the C11/C13 streams. -/
+theorem C07_fraction_cases {α : Type} (A : BarGeo.Arith α) (pos l : Nat) :
+    BarGeo.fraction A pos none = A.zero ∧ BarGeo.fraction A pos (some 0) = A.one ∧
+    (l ≠ 0 → BarGeo.fraction A 0 (some l) = A.zero) ∧
+    (BarGeo.fraction A pos (some l) = A.zero ∨ BarGeo.fraction A pos (some l) = A.one ∨
+      (BarGeo.fraction A pos (some l) = A.div (A.ofNat pos) (A.ofNat l) ∧
+        A.lt (A.div (A.ofNat pos) (A.ofNat l)) A.zero = false ∧ A.lt A.one (A.div (A.ofNat pos) (A.ofNat l)) = false)) := by
+  refine ⟨rfl, rfl, fun hl => ?_, ?_⟩
+  · cases l with
+    | zero => exact absurd rfl hl
+    | succ k => simp [BarGeo.fraction]
+  · cases l with
+    | zero => right; left; rfl
+    | succ k =>
+      unfold BarGeo.fraction
+      by_cases hp : pos = 0
+      · left; simp [hp]
+      · simp only [hp, if_false]
+        by_cases h0 : A.lt (A.div (A.ofNat pos) (A.ofNat (k + 1))) A.zero = true
+        · left; simp [h0]
+        · by_cases h1 : A.lt A.one (A.div (A.ofNat pos) (A.ofNat (k + 1))) = true
+          · right; left; simp [h0, h1]
+          · right; right; simp [h0, h1]
 
 /-- non-vacuity: wrap-around at the `u64` boundary -/
 example : (run {} [.setPos (U64 - 1), .inc 2, .dec 3]).pos = U64 - 2 := by decide +kernel
